@@ -125,7 +125,14 @@ class Scenario:
         fab.reset_out()
         world.capture.reset()
         if "names" not in _SHARED:
-            _SHARED["names"] = sched.shared_names(app)
+            # the same, complete name set in every process: everything reachable from the application plus
+            # the object kinds that only exist transiently (queued messages, hopping parameters)
+            import data_msg
+            import gsm_shared
+            m1, m2 = data_msg.TxMsg(fn=0, tn=0, burst=bytearray(148)), data_msg.RxMsg(fn=0, tn=0)
+            m1.pwr = 0
+            m2.rssi = m2.toa256 = m2.ci = m2.tsc = m2.tsc_set = 0
+            _SHARED["names"] = sched.shared_names([app, m1, m2, gsm_shared.HoppingParams(0, 0, [(1, 1)])])
         s.shared = _SHARED["names"]
 
         def sock_thread():
@@ -292,6 +299,7 @@ def replay(ctx, case):
     sc = Scenario(case["ops"], case["queue"], case.get("start_off", False))
     lins = sc.linearizations()
     ch = {int(k): v for k, v in case["choices"].items()}
+    sc.execute({}, 0)       # warm-up (see _run_scenario)
     pts, obs, errors, dl = sc.execute(ch, case["first"])
     cls, info = sc.judge(obs, errors, dl, lins)
     if cls:
